@@ -452,7 +452,7 @@ def rules_specs(draw) -> dict:
     shipped = shipped_rules()
     strictness = draw(st.sampled_from(["strict", "relaxed", "relaxed", "loose"]))
     available = shipped[strictness]
-    taxon = draw(st.sampled_from(["bacteria", "bacteria", "fungi"]))
+    taxon = draw(st.sampled_from(["bacteria", "fungi"]))
     mult_values = [0.5, 1.0, 1.5, 2.0]
     mult = [draw(st.sampled_from(mult_values)), draw(st.sampled_from(mult_values))]
     limit = []
@@ -503,10 +503,10 @@ def rules_specs(draw) -> dict:
         if found:
             hits[gene["name"]] = found
     subregions = []
-    if draw(st.integers(0, 2)) == 0:
-        start = draw(gen.coord(0, length - 2))
-        end = draw(gen.coord(start + 1, length))
-        subregions.append({"parts": [[start, end]]})
+    for _ in range(draw(st.sampled_from([0, 0, 1, 1, 2]))):
+        bounds = draw(_area_around(genes, length, False))
+        if bounds is not None and bounds[0] < bounds[1]:
+            subregions.append({"parts": [[bounds[0], bounds[1]]]})
     options = {"taxon": taxon, "strictness": strictness, "mult": mult, "limit": limit}
     # ---- settings that can change inside the history
     other_strictness = [level for level in ("strict", "relaxed", "loose") if level != strictness]
@@ -803,7 +803,7 @@ def sideload_specs(draw) -> dict:
             if bounds is None:
                 continue
             start, end = bounds
-            if draw(st.booleans()):
+            if draw(st.integers(0, 4)) < 2:
                 area = {"start": start, "end": end, "label": draw(st.sampled_from(["Polyketide", "x", "Type I PKS", "a-b"]))}
                 if end < 1:
                     continue
@@ -1635,7 +1635,7 @@ def _check_tta(spec: dict) -> dict:
 
 @st.composite
 def tta_specs(draw) -> dict:
-    style = draw(st.sampled_from(["gc", "gc", "at", "mixed"]))
+    style = draw(st.sampled_from(["gc", "gc", "gc", "at", "mixed"]))
     weights = {"gc": [0, 1, 1, 3, 4, 6, 0, 1, 3], "at": [2, 5, 7, 2, 5, 0], "mixed": list(range(len(TTA_BLOCKS)))}[style]
     blocks = draw(st.lists(st.sampled_from(weights), min_size=6, max_size=24))
     length = 18 * len(blocks)
@@ -1667,11 +1667,13 @@ def tta_specs(draw) -> dict:
         genes.append({"name": f"g{len(genes)}", "loc": {"parts": parts, "strand": strand, "kind": "span"}})
     if not genes:
         genes.append({"name": "g0", "loc": {"parts": [[0, 18]], "strand": 1, "kind": "simple"}})
+    for index, gene in enumerate(genes):
+        gene["name"] = f"g{index}"
     areas = [[[0, length]]] if draw(st.integers(0, 3)) else [[[0, length // 2]]]
     gc_estimate = sum(_tta_sequence({"blocks": blocks}).count(base) for base in "GC") / length
     near = [round(gc_estimate - 0.05, 3), round(gc_estimate + 0.05, 3)]
     thresholds = ["gc", 0.0, 1.0, 0.65, 0.5, 0.3] + [value for value in near if 0 <= value <= 1]
-    threshold = draw(st.sampled_from(thresholds))
+    threshold = draw(st.sampled_from(thresholds + ["gc", 0.0, 0.3, near[0] if 0 <= near[0] <= 1 else 0.0]))
     changes = [{"kind": "schema", "values": [1, 3, "2", "missing", None]},
                {"kind": "record_id", "values": ["rec2", "rec1 ", "REC1"]},
                {"kind": "threshold", "values": [value for value in thresholds if value != threshold]}]
@@ -1708,7 +1710,7 @@ SIGNATURES = {"definition_domains_order": _sig_definition_order}
 
 
 def run(ctx) -> None:
-    shards = ctx.pick(4, 16)
+    shards = ctx.pick(8, 16)
     ctx.hyp("rules", rules_specs(), max_examples=ctx.pick(320, 8000), shards=shards)
     ctx.hyp("sideload", sideload_specs(), max_examples=ctx.pick(300, 8000), shards=shards)
     ctx.hyp("nrps", nrps_specs(), max_examples=ctx.pick(300, 8000), shards=shards)
